@@ -127,6 +127,7 @@ def work_valid(job):
 def work_prefix(job):
     name, data, points, w2c2 = job[:4]
     popts = list(job[4]) if len(job) > 4 else []
+    refprefix = len(job) > 5 and job[5]      # the truncated file is the REFERENCE module (-r), the module itself is complete
     wd = tempfile.mkdtemp(prefix='c10p.', dir='/dev/shm')
     counts = {}
     bad = []
@@ -134,7 +135,7 @@ def work_prefix(job):
     changes = 0
     try:
         for k in points:
-            kind, msg = run_w2c2(w2c2, wd, data[:k], popts, timeout=60)
+            kind, msg = run_w2c2(w2c2, wd, data, popts, refdata=data[:k], timeout=60) if refprefix else run_w2c2(w2c2, wd, data[:k], popts, timeout=60)
             counts[kind] = counts.get(kind, 0) + 1
             cur = (kind, msg)
             if cur != prev:
@@ -222,6 +223,13 @@ def main(tier):
                 for part in chunks(pts, 200):
                     pjobs.append((n, d, part, w2c2, po))
                 nprefix += len(pts)
+    # the reference module given with -r is read by the same reader: every proper prefix of it next to the complete module
+    for n, d in (hb[:1] if tier == 'quick' else hb + spec[::40]):
+        if len(d) <= 4096:
+            pts = list(range(1, len(d)))
+            for part in chunks(pts, 200):
+                pjobs.append((n + ' (as -r reference)', d, part, w2c2, ['-r', 'REF', '-f', '2'], True))
+            nprefix += len(pts)
     with ProcessPoolExecutor(NCPU) as ex:
         presults = list(ex.map(work_prefix, pjobs, chunksize=1))
     pclasses = {}
@@ -248,7 +256,7 @@ def main(tier):
     chk.cov['prefix_run_classes'] = pclasses
     chk.cov['rule'] = ('(a) every valid module of the corpus (spec-suite modules, hand-built, name-stress: 20 names x 4 positions, size-stress: 5) x option sets '
                        '(8 representative sets each; the full 384-element option product on the hand-built modules) must exit 0 without signal or sanitizer report; '
-                       '(b) fault points = every proper prefix 0<k<len of every module <= 4 KiB (boundary +-2 for larger), modules with a name section also under -g (thorough: + -g -f 1 -t 2, -g -p -m): terminates, no sanitizer report, no '
+                       '(b) fault points = every proper prefix 0<k<len of every module <= 4 KiB (boundary +-2 for larger), modules with a name section also under -g (thorough: + -g -f 1 -t 2, -g -p -m), and every proper prefix used as the -r REFERENCE module next to the complete module: terminates, no sanitizer report, no '
                        'SIGSEGV/SIGBUS/SIGFPE/SIGILL; own abort()/assert on a truncated file is tolerated and counted. distinct_nontrivial = (module, k) whose '
                        'termination class or diagnostic differs from that of prefix k-1, plus distinct (module, option-set-group) jobs')
     chk.sample({'prefix': 'i32.0.wasm[:77]', 'class': 'diag'})
